@@ -332,6 +332,10 @@ class Session:
         self.client_hello_seen = True
 
     def handle_tls_server_hello(self, record: TlsRecord):
+        if not self.client_hello_seen:
+            # no ClientHello for this handshake (capture starts inside it, or the packet was lost): no client random, no keys
+            self.can_decrypt = False
+            return
         if self.client_hello_seen:
             self.can_decrypt = True
 
